@@ -119,28 +119,21 @@ Theorem C20_unwritable_output_reported : forall t fl argv w o lo n name bs,
 Proof. exact unwritable_output_reported. Qed.
 Print Assumptions C20_unwritable_output_reported.
 
-(* wbxml2xml prints something on stderr on every path *)
-Theorem C20_w2x_always_reports : forall fl argv w o, tool_main W2X fl argv w = Done o -> o_stderr o <> [].
-Proof. exact w2x_always_reports. Qed.
-Print Assumptions C20_w2x_always_reports.
+(* both tools print something on stderr on every path *)
+Theorem C20_always_reports : forall t fl argv w o, tool_main t fl argv w = Done o -> o_stderr o <> [].
+Proof. exact always_reports. Qed.
+Print Assumptions C20_always_reports.
 
-(* unreadable input: no conversion, status 0, nothing written, and a report — PARTIAL for xml2wbxml: its
-   "Failed to open" line goes to stdout (printf), so the sentence "reported on standard error" is proved
-   only in the weaker form below; the full-strength form is refuted by the next theorem (DEFECTS.md) *)
-Theorem C20_unreadable_input_reported_partial : forall t fl argv w o lo out name,
+(* unreadable input (cannot be opened, or read error): no conversion, status 0, nothing written, nothing on
+   stdout, exactly one report line on stderr.  Full since /repo 1510f5b (xml2wbxml used to print the
+   "Failed to open" line on stdout; that behaviour is now an ordinary violation for the check's oracle). *)
+Theorem C20_unreadable_input_reported : forall t fl argv w o lo out name,
   tool_main t fl argv w = Done o -> request t fl argv = Some (lo, out, name) ->
   (forall bs, input_of w name <> InBytes bs) ->
-  o_call o = None /\ o_exit o = 0 /\ o_sink o = SNone /\
-  (o_stderr o <> [] \/ (t = X2W /\ input_of w name = InOpenFail /\ o_stdout o = [MFailedOpenIn name])).
+  o_call o = None /\ o_exit o = 0 /\ o_sink o = SNone /\ o_stdout o = [] /\
+  (o_stderr o = [MFailedOpenIn name] \/ exists n, o_stderr o = [MReadErr n]).
 Proof. exact unreadable_input_reported. Qed.
-Print Assumptions C20_unreadable_input_reported_partial.
-
-Theorem C20_x2w_unopenable_input_on_stderr_refuted :
-  exists argv w o, tool_main X2W Att argv w = Done o /\
-                   (exists lo out name, request X2W Att argv = Some (lo, out, name) /\ input_of w name = InOpenFail) /\
-                   o_stderr o = [] /\ o_exit o = 0.
-Proof. exact x2w_unopenable_input_refuted. Qed.
-Print Assumptions C20_x2w_unopenable_input_on_stderr_refuted.
+Print Assumptions C20_unreadable_input_reported.
 
 (* the hypotheses are satisfiable *)
 Example argv_ok_ex : argv_ok [[119]; [45; 111]; [111]; [105]].
